@@ -21,6 +21,9 @@ pub struct World {
     pub mpk: MasterPublicKey,
     /// (policy, key)
     pub keys: Vec<(String, UserSecretKey)>,
+    /// the master key (after the two rotations) and its latest public key, for re-encapsulation
+    pub msk: MasterSecretKey,
+    pub mpk_latest: MasterPublicKey,
 }
 
 pub const ENC_POLICIES: &[&str] = &[
@@ -52,11 +55,10 @@ pub fn world() -> Result<World, Fail> {
     // a key with two revisions
     let _ = cc.rekey(&mut msk, &AccessPolicy::parse("DPT::FIN").map_err(e)?).map_err(e)?;
     let mpk2 = cc.rekey(&mut msk, &AccessPolicy::parse("SEC::TOP").map_err(e)?).map_err(e)?;
-    let _ = mpk2;
     let mut k = keys[0].1.clone();
     cc.refresh_usk(&mut msk, &mut k, true).map_err(e)?;
     keys.push(("SEC::TOP && DPT::FIN (refreshed, 2 revisions)".into(), k));
-    Ok(World { cc, mpk, keys })
+    Ok(World { cc, mpk, keys, msk, mpk_latest: mpk2 })
 }
 
 pub struct Victim {
@@ -67,6 +69,8 @@ pub struct Victim {
     pub w: WXEnc,
     /// which keys open the original
     pub openers: Vec<bool>,
+    /// the master key can re-encapsulate the original (control of the recaps oracle)
+    pub recaps_ok: bool,
 }
 
 pub fn victim(w: &World, policy: &str) -> Result<Victim, Fail> {
@@ -83,7 +87,8 @@ pub fn victim(w: &World, policy: &str) -> Result<Victim, Fail> {
             Err(e) => return Err(Fail::new("decaps-error-on-valid-objects", short_err(&e))),
         }
     }
-    Ok(Victim { policy: policy.to_string(), enc, bytes, secret: s.to_vec(), w: wx, openers })
+    let recaps_ok = w.cc.recaps(&w.msk, &w.mpk_latest, &enc).is_ok();
+    Ok(Victim { policy: policy.to_string(), enc, bytes, secret: s.to_vec(), w: wx, openers, recaps_ok })
 }
 
 /// Present a mutant to every key. `kind` and `component` classify the mutation.
@@ -106,7 +111,30 @@ pub fn judge(w: &World, v: &Victim, mutant: &[u8], kind: &str, component: &str, 
         col.class("mutants:different-bytes-equal-object");
     }
     col.class("mutants:deserialized");
+    // the tag binds the whole encapsulation and the traps are recomputed from the recovered seed:
+    // when the tag or a trap was altered nobody can open anything any more, the master key included,
+    // so re-encapsulation must fail too (for an altered component it legitimately goes on with the
+    // other components, exactly as for a pruned right: not judged)
+    let integrity_wide = component == "tag" || component.starts_with("trap") && component != "trap-count" || matches!(kind, "tag-of-other" | "traps-of-other" | "swap-traps" | "drop-trap" | "duplicate-trap");
+    if integrity_wide && v.recaps_ok && !equal_object {
+        col.class("mutants:presented-to-recaps");
+        match std::panic::catch_unwind(std::panic::AssertUnwindSafe(|| with_cc(|cc| cc.recaps(&w.msk, &w.mpk_latest, &m).is_ok()))) {
+            Ok(false) => {}
+            Ok(true) => {
+                return Err(Fail::new(format!("recaps-accepts-mutant:{kind}:{component}"), format!("encapsulation for '{}' ({} bytes, hybridized={}), mutation {kind} on {component}: the master key re-encapsulates it although its tag / traps no longer match", v.policy, v.bytes.len(), v.w.hyb)));
+            }
+            Err(_) => {
+                let (loc, _) = crate::runner::take_panic();
+                col.off_property(&format!("panic-in-recaps@{loc} [C14]"));
+            }
+        }
+    }
     for (i, (pol, k)) in w.keys.iter().enumerate() {
+        // the same instance first opens the genuine encapsulation with this key (the first of the
+        // keys that open it): what it may remember from that must not vouch for the mutant
+        if v.openers[i] && v.openers[..i].iter().all(|o| !*o) {
+            let _ = std::panic::catch_unwind(std::panic::AssertUnwindSafe(|| with_cc(|cc| cc.decaps(k, &v.enc).map(|o| o.is_some()))));
+        }
         let r = match std::panic::catch_unwind(std::panic::AssertUnwindSafe(|| with_cc(|cc| cc.decaps(k, &m)))) {
             Ok(r) => r,
             Err(_) => {
@@ -483,7 +511,7 @@ fn meta(ctx: &Ctx) -> Meta {
     Meta {
         level: "fault_enumeration",
         rule: format!(
-            "victims: encapsulations for {:?} (classic 1-3 targets, hybridized 1-4 targets) presented to 5 keys (authorized, unauthorized, broadcast, two-revision); faults: every byte x every bit of the serialized classic encapsulations and of one hybridized one ({}), every other value of the structural bytes (counts, flavour flag, first and last byte of every point) and four values of every other byte outside the ML-KEM ciphertexts (thorough tier: every value of every byte outside them, four values inside), every truncation, generated structural rearrangements through the independent codec ({:?}), every bit of PKE ciphertexts and encrypted header metadata for 4 plaintext lengths, header splices. A mutant that deserializes to an object != the original must yield no secret for every key. Non-trivial = mutant that deserializes and is presented to an authorized key; distinct by (flavour, #targets, mutation kind, component hit, key)",
+            "victims: encapsulations for {:?} (classic 1-3 targets, hybridized 1-4 targets) presented to 5 keys (authorized, unauthorized, broadcast, two-revision); faults: every byte x every bit of the serialized classic encapsulations and of one hybridized one ({}), every other value of the structural bytes (counts, flavour flag, first and last byte of every point) and four values of every other byte outside the ML-KEM ciphertexts (thorough tier: every value of every byte outside them, four values inside), every truncation, generated structural rearrangements through the independent codec ({:?}), every bit of PKE ciphertexts and encrypted header metadata for 4 plaintext lengths, header splices. A mutant that deserializes to an object != the original must yield no secret for every key, each key having just opened the genuine encapsulation on the same instance; a mutant of the tag or of a trap must also be refused by re-encapsulation with the master key. Non-trivial = mutant that deserializes and is presented to an authorized key; distinct by (flavour, #targets, mutation kind, component hit, key)",
             ENC_POLICIES,
             if ctx.thorough { "all hybridized victims x every bit in this tier" } else { "other hybridized victims: every byte x one bit in this tier" },
             KINDS
